@@ -11,7 +11,7 @@ from ..core import MachineryError
 from . import c08
 from .dataloops import Merged
 
-CHUNK = 120000
+CHUNK = 30000
 
 
 def pyval(v):
